@@ -243,8 +243,13 @@ impl IdMap {
         if record.flags & I2E_FLAG_TOMBSTONED != 0 {
             return Ok(());
         }
-        record.flags |= I2E_FLAG_TOMBSTONED;
-        write_i2e_record(pager, start, internal_id as u64, *record)
+        // Page first: if the write fails the flag must not look set, or a retried compaction
+        // would skip it and checkpoint the deletion away.
+        let mut flagged = *record;
+        flagged.flags |= I2E_FLAG_TOMBSTONED;
+        write_i2e_record(pager, start, internal_id as u64, flagged)?;
+        *record = flagged;
+        Ok(())
     }
 
     /// Add a label to an existing node.
